@@ -63,5 +63,6 @@ def tasks(tier):
     t.append(("contracts.allsizes", "uhf_wick", dict(what="energy")))
     t.append(("contracts.allsizes", "rhf_wick", dict(what="energy", restricted=True)))
     t.append(("contracts.allsizes", "rhf_wick", dict(what="energy", restricted=False)))
+    t.append(("contracts.allsizes", "noci_wick", dict(what="energy")))
     t.append((W, "canary", dict(which="energy")))
     return t
